@@ -46,6 +46,7 @@ var sigs = map[string]string{
 	"PtrV": "i", "PtrArr": "ii", "PtrElem": "ii", "SetPtr": "ii", "GetPtr": "i",
 	"MkCounter": "i", "MkPair": "i", "MkAdder": "i", "CallFn": "ii",
 	"MkSq": "i", "MkRc": "ii", "DupShape": "i", "Area": "i", "Grow": "ii", "SetAny": "ii", "AnyStr": "i",
+	"MkPairs": "i", "ClonePairs": "i", "DupPairs": "i", "AppPair": "iii", "SetPair": "iiii", "GetPairs": "i",
 	"Render": "i",
 }
 
@@ -76,7 +77,7 @@ func setup() {
 
 const resetSrc = `
 func Reset() string {
-	nodes, slices, iptrs, fns, shapes, reg = nil, nil, nil, nil, nil, nil
+	nodes, slices, iptrs, fns, shapes, reg, pairs = nil, nil, nil, nil, nil, nil, nil
 	return "ok"
 }
 `
